@@ -15,7 +15,7 @@ ASSUMPTIONS = ["the text<->token step (lexer) is validated by the correspondence
                "the ladder (Ladder.v) is the spec: precedence of examples/msiquery.pest with ^ between | and &, binary operators left-associative"]
 
 OPS2 = [("bin", b) for b in X.BINOPS] + [("and",), ("or",)]
-SAFE_LITS = [None, 0, 1, -1, 7, -2147483648, 2147483647, "", "a", "x y", "it's"]
+SAFE_LITS = [None, 0, 1, -1, 7, -2147483648, 2147483647, "", "a", "x y", "it's", "Gr\u00f6\u00dfe", "\u65e5\u672c\u0416", "caf\u00e9 au lait"]
 
 
 def mk2(op, a, b):
